@@ -448,7 +448,9 @@ func expandGlob(root, pattern string) ([]string, error) {
 	var matches []string
 	ignoreHiddenGlobFn := func(path string, d fs.DirEntry) error {
 		if strings.HasPrefix(path, ".") {
-			return filepath.SkipDir
+			// Hidden, leave it out but carry on with everything else. Returning filepath.SkipDir
+			// here would make the walk drop the rest of the directory being listed as well
+			return nil
 		}
 
 		abs, err := filepath.Abs(filepath.Join(root, path))
